@@ -157,12 +157,15 @@ class _Stop(BaseException):
     pass
 
 
-def spawn_path(entry: int, ig: bool, ui: int, gi: int) -> bool:
+def spawn_path(entry: int, ig: bool, ui: int, gi: int, mi: int) -> bool:
     """
-    pre: 0 <= entry <= 3 and 0 <= ui <= 3 and 0 <= gi <= 3
+    pre: 0 <= entry <= 3 and 0 <= ui <= 3 and 0 <= gi <= 3 and 0 <= mi <= 2
     post: __return__
     """
     entry = pick(entry, 0, 3)
+    # who the master is: root, or an ordinary uid (which may still hold CAP_SETUID/CAP_SETGID - the decision whether the
+    # switch is possible is the kernel's, made in set_owner_process, not the worker's)
+    m_uid, m_gid = [(0, 0), (990, 990), (1000, 1000)][pick(mi, 0, 2)]
     uid, gid = UIDS[pick(ui, 0, 3)], GIDS[pick(gi, 0, 3)]
     K = KS.Kernel()
     arb = mk_arbiter(K, 1, ages=[1] if entry in (1, 2) else [])
@@ -210,7 +213,8 @@ def spawn_path(entry: int, ig: bool, ui: int, gi: int) -> bool:
     WB.WorkerTmp = lambda cfg: SimpleNamespace(close=lambda: None, fileno=lambda: 9, notify=lambda: None)
     WB.util = ns("WB.util", set_owner_process=lambda u, g, initgroups=False: trace.append(("set_owner", u, g, initgroups)),
                               seed=lambda: None, set_non_blocking=lambda fd: None, close_on_exec=lambda fd: None)
-    WB.os = ns("WB.os", pipe=lambda: (90, 91), environ={}, write=lambda fd, d: None)
+    WB.os = ns("WB.os", pipe=lambda: (90, 91), environ={}, write=lambda fd, d: None, geteuid=lambda: m_uid, getuid=lambda: m_uid,
+               getegid=lambda: m_gid, getgid=lambda: m_gid, getpid=lambda: 4242)
     WB.signal = ns("WB.signal", **{k: getattr(signal, k) for k in dir(signal) if k.startswith("SIG")},
                                 signal=lambda s, h: None, siginterrupt=lambda s, f: None, set_wakeup_fd=lambda fd: None)
     arb.log = SimpleNamespace(**{k: hook for k in ("debug", "info", "warning", "error", "exception", "critical",
@@ -236,6 +240,10 @@ def spawn_path(entry: int, ig: bool, ui: int, gi: int) -> bool:
     return trace == [("set_owner", uid, gid, ig), "load_wsgi", "run"]
 
 
+# a reload that cannot load its configuration must not produce a generation started from defaults (= the master's own ids):
+# the obligation lives in harness/c10.py (real Application.reload) and is discharged here as well
+from harness.c10 import reload_broken  # noqa: E402,F401
+
 OBLIGATIONS = [
     Ob("C20.owner", "owner", timeout=300,
        bound="uid in {0,1000,1001,65534}, gid in {0,1000,50,65534,2**31,3000000000}, initgroups on/off, master root (with primary gid from the same set) or unprivileged; users 1000 and "
@@ -243,5 +251,9 @@ OBLIGATIONS = [
     Ob("C20.owner.twin", "owner_twin", expect="refute", timeout=60),
     Ob("C20.files", "files", timeout=300, bound="same ids: WorkerTmp heartbeat file and UnixSocket.bind ownership (socket directory handing its own group to new files), umask restored"),
     Ob("C20.spawn_path", "spawn_path", timeout=600,
-       bound="child side of spawn_worker reached from manage_workers / TTIN / reload / a USR2-started master, all id combinations"),
+       bound="child side of spawn_worker reached from manage_workers / TTIN / reload / a USR2-started master, all id combinations, "
+             "master running as root or as an ordinary uid"),
+    Ob("C20.reload_broken", "reload_broken", timeout=300,
+       bound="real Application.reload with a broken config file (unreadable / rejected value / wrong type) and command-line settings: "
+             "the master stops with an error or keeps every source - never a half-loaded configuration for the next generation"),
 ]
